@@ -8,7 +8,9 @@ WT=/tmp/seedrun_$NAME
 git -C /repo worktree remove --force $WT 2>/dev/null; rm -rf $WT
 git -C /repo worktree add --detach $WT HEAD >/dev/null 2>&1 || exit 2
 git -C $WT apply /verif/seeded/$NAME/patch.diff || { echo "patch does not apply"; exit 2; }
+cp $V/evidence/$PROP.json /tmp/seedrun_ev_$NAME.json 2>/dev/null   # the evidence file belongs to runs against /repo itself
 cd $V && RPFT_REPO=$WT timeout 3000 ./check $PROP --tier $TIER 2>&1 | grep -v "pkg_resources\|^  import" | grep "VIOLATION\|exit\|KNOWN" | cut -c1-260 | tail -8
 RC=${PIPESTATUS[0]}
+[ -f /tmp/seedrun_ev_$NAME.json ] && mv /tmp/seedrun_ev_$NAME.json $V/evidence/$PROP.json
 git -C /repo worktree remove --force $WT >/dev/null 2>&1; rm -rf $WT
 exit $RC
